@@ -513,12 +513,10 @@ Qed.
 Lemma first_sym_level e : forall k, WFk k e -> starter_kind (kind_of_sym (first_sym e)) = true.
 Proof.
   unfold starter_kind.
-  induction e; intros k W; inv W; simpl; try reflexivity; eauto.
+  induction e; intros k W; inv W; simpl; try reflexivity; eauto;
+    try (rewrite first_sym_post by assumption; reflexivity).
   - rewrite flat_lit_pstarter. reflexivity.
   - match goal with HU : is_unop _ = true |- _ => rewrite HU end. apply orb_true_r.
-  - rewrite first_sym_post by assumption. reflexivity.
-  - rewrite first_sym_post by assumption. reflexivity.
-  - rewrite first_sym_post by assumption. reflexivity.
 Qed.
 
 Lemma first_sym_full e : WFfull e -> starter_kind (kind_of_sym (first_sym e)) = true.
@@ -591,11 +589,58 @@ Proof.
   destruct (existsb (str_eqb k) (map fst ps)); reflexivity.
 Qed.
 
+Lemma NoDup_snoc {A} (l : list A) x : NoDup l -> ~ In x l -> NoDup (l ++ [x]).
+Proof.
+  induction l as [|y l IH]; simpl; intros H Hn.
+  - constructor; [intros []|constructor].
+  - inv H. constructor.
+    + intros Hin. apply in_app_or in Hin. destruct Hin as [Hin|[->|[]]]; [contradiction|].
+      apply Hn. left. reflexivity.
+    + apply IH; [assumption|]. intros Hin. apply Hn. right. exact Hin.
+Qed.
+
 Lemma props_put_nodup {A} (ps : list (list N * A)) k v :
   NoDup (map fst ps) -> NoDup (map fst (props_put ps k v)).
 Proof.
   intros H. rewrite props_put_keys. destruct (existsb (str_eqb k) (map fst ps)) eqn:E; [exact H|].
-  apply NoDup_app_snoc. split; [exact H|].
+  apply NoDup_snoc; [exact H|].
   intros Hin. assert (existsb (str_eqb k) (map fst ps) = true); [|congruence].
   apply existsb_exists. exists k. split; [exact Hin|apply str_eqb_refl].
 Qed.
+
+(** * Inversion of well-formedness by node form *)
+
+Lemma WFk_post_cases e : WFk (S nlev) e ->
+  match e with
+  | ELit _ _ | EId _ _ => True
+  | EGroup e0 _ => WFfull e0
+  | EArray es => Forall WFfull es
+  | EObject ps => NoDup (map fst ps) /\ Forall WFfull (map snd ps)
+  | ECall c _ args => WFk (S nlev) c /\ Forall WFfull args
+  | EIndex a i _ => WFk (S nlev) a /\ WFfull i
+  | EProp o _ _ => WFk (S nlev) o
+  | _ => False
+  end.
+Proof.
+  intros W. inv W; auto.
+  - lia.
+  - match goal with HO : op_level _ = Some _ |- _ => apply op_level_lt in HO end. lia.
+  - match goal with HO : op_level _ = Some _ |- _ => apply op_level_lt in HO end. lia.
+Qed.
+
+Lemma WFfull_cases e : WFfull e ->
+  match e with
+  | EAssign _ _ v _ => WFfull v
+  | EArrAssign a i v _ => WFk (S nlev) a /\ WFfull i /\ WFfull v
+  | EPropAssign o _ v _ => WFk (S nlev) o /\ WFfull v
+  | _ => WFk 0 e
+  end.
+Proof.
+  intros W. inv W; auto.
+  match goal with HW : WFk 0 ?e |- _ => inversion HW; subst; auto; constructor; auto end.
+Qed.
+
+Lemma erase_mk_bin b op l r :
+  erase_e (mk_bin b op l r) =
+  if b then ELogical (tk op) (erase_e l) (erase_e r) else EBinary (tk op) (erase_e l) (erase_e r) 0%N.
+Proof. destruct b; reflexivity. Qed.
